@@ -282,6 +282,7 @@ pub fn run_plan(fam: &Family, plan: &Value) -> Rec {
     set_clock(plan);
     TRAP_CTX.with(|c| c.set((fam as *const Family, plan as *const Value)));
     crate::seams::set_poke_after_error(false);
+    crate::seams::set_resume_after_error(false);
     let r = guard(|| (fam.run)(plan, &mut rec));
     TRAP_CTX.with(|c| c.set((std::ptr::null(), std::ptr::null())));
     if let Err(p) = r {
